@@ -29,9 +29,10 @@ ERR_UNSUPPORTED_VERSION = 35
 
 class Batch(object):
     """A stored batch: what one produce payload (or the log generator) wrote."""
-    __slots__ = ("offsets", "records", "magic", "codec", "batch_id", "wrapper_ts")
+    __slots__ = ("offsets", "records", "magic", "codec", "batch_id", "wrapper_ts", "hollow")
 
-    def __init__(self, offsets, records, magic, codec, batch_id, wrapper_ts=None):
+    def __init__(self, offsets, records, magic, codec, batch_id, wrapper_ts=None, hollow=False):
+        self.hollow = hollow  # a compressed wrapper whose records were all compacted away: occupies its offset only
         self.offsets = list(offsets)
         self.records = list(records)  # (key, value, timestamp)
         self.magic = magic
@@ -64,6 +65,13 @@ class PartitionLog(object):
         self.batches.append(Batch(offsets, records, magic, codec, self._bid))
         self.next_offset = offsets[-1] + 1
 
+    def add_hollow(self, offset, magic=0, codec=1):
+        """Log generator: a compressed wrapper at `offset` holding an empty message set."""
+        assert offset >= self.next_offset
+        self._bid += 1
+        self.batches.append(Batch([offset], [], magic, codec or 1, self._bid, hollow=True))
+        self.next_offset = offset + 1
+
     def skip_to(self, offset):
         """Leave a gap (compaction / transaction markers)."""
         assert offset >= self.next_offset
@@ -73,7 +81,8 @@ class PartitionLog(object):
         """Retention: drop whole batches below `offset`."""
         self.batches = [b for b in self.batches if b.offsets[-1] >= offset]
         self.log_start = max(self.log_start, offset)
-        if self.batches and self.batches[0].offsets[0] < self.log_start and self.batches[0].codec == 0:
+        if self.batches and self.batches[0].offsets[0] < self.log_start and self.batches[0].codec == 0 \
+                and not self.batches[0].hollow:
             b = self.batches[0]
             keep = [i for i, o in enumerate(b.offsets) if o >= self.log_start]
             b.offsets = [b.offsets[i] for i in keep]
@@ -87,7 +96,7 @@ class PartitionLog(object):
         return out
 
     def offsets_from(self, start):
-        return [o for b in self.batches for o in b.offsets if o >= start]
+        return [o for b in self.batches if not b.hollow for o in b.offsets if o >= start]
 
     def render(self, fetch_offset, fetch_version):
         """Message set for a fetch at fetch_offset (untruncated)."""
@@ -97,7 +106,10 @@ class PartitionLog(object):
             if b.offsets[-1] < fetch_offset:
                 continue
             magic = b.magic if want_magic1 else 0
-            if b.codec == 0:
+            if b.hollow:
+                entries.append(R.encode_wrapper([], b.offsets[0], magic=magic, codec=b.codec,
+                                                timestamp=(0 if magic == 1 else None)))
+            elif b.codec == 0:
                 for o, (k, v, ts) in zip(b.offsets, b.records):
                     if o < fetch_offset:
                         continue
